@@ -203,6 +203,25 @@ def _implicit(prog: Program, run: Run, eff: Effects) -> None:
                                   f"`{ast.unparse(x)}` indexes a list that was filtered by the "
                                   "decoded value without testing that it is non-empty: "
                                   "IndexError", f"{f.module.rel}:{x.lineno}", stmt_key(st))
+        # (vi) next(<filtered generator>) without default: StopIteration when nothing matches
+        for x in walk_no_nested(f.node):
+            if not (isinstance(x, ast.Call) and isinstance(x.func, ast.Name) and x.func.id == "next"
+                    and len(x.args) == 1 and not x.keywords):
+                continue
+            g = x.args[0]
+            if not (isinstance(g, ast.GeneratorExp) and any(c.ifs for c in g.generators) or
+                    isinstance(g, ast.Call) and call_name(g) in ("iter", "filter")):
+                continue
+            n += 1
+            st = _stmt(f.node, x)
+            if eff.caught(f, x, "StopIteration"):
+                run.ok(R, f"{f.module.rel}:{f.qual}", "next() without default is wrapped in except "
+                       "StopIteration", f"{f.module.rel}:{x.lineno}")
+            else:
+                run.violation(R, f"{f.module.rel}:{f.qual}", "implicit-StopIteration",
+                              f"`{ast.unparse(x)[:80]}` raises StopIteration when no element "
+                              "matches the decoded value (no default, no handler): not a "
+                              "DecodeError", f"{f.module.rel}:{x.lineno}", stmt_key(st))
         # (v) numeric presentation types in f-strings (`{v:02x}`): ValueError / TypeError unless the
         #     value is an int (float) -- a decoded value need not be one
         import re as _re
@@ -256,7 +275,7 @@ def _implicit(prog: Program, run: Run, eff: Effects) -> None:
                                     "decode_state.<dict>[key] without membership test -> KeyError",
                                     "[i] on a value-filtered list without length test -> "
                                     "IndexError", "read of a possibly unassigned local -> "
-                                    "UnboundLocalError", "numeric format spec on a decoded / "
+                                    "UnboundLocalError", "next(<filtered generator>) without default or handler -> StopIteration", "numeric format spec on a decoded / "
                                     "described value without isinstance test -> ValueError"])
     run.info("implicit_sites_examined", n)
 
